@@ -32,6 +32,7 @@ VARIANTS_QUICK = [
     # warm: the model has been evaluated (and traced, on the complete chain list) before the history starts
     {"name": "tf_function", "data": {"use_tf_function": True}, "fin": ((0, -1), (0, -1), (0, -1)), "res2": False, "warm": True},
 ]
+VARIANTS_QUICK.append({"name": "eager_fourbody", "data": {}, "fin": None, "res2": False, "four": True, "max_depth": 1})
 VARIANTS_THOROUGH = VARIANTS_QUICK + [
     {"name": "tf_function_cold", "data": {"use_tf_function": True}, "fin": ((0, -1), (0, -1), (0, -1)), "res2": False},
     {"name": "eager_spin1_2res", "data": {}, "fin": ((1, -1), (0, -1), (0, -1)), "res2": True},
@@ -44,20 +45,33 @@ class World:
         res = None
         if variant["res2"]:
             res = {"BC": [("R_BC", 1, -1, 4.16, 0.1), ("R_BC2", 0, 1, 4.3, 0.2)]}
-        cfg = zoo.card3(fin=variant["fin"], res=res, data=variant["data"])
+        if variant.get("four"):
+            # four-body group: the decay A -> R_BCD E (three (l,s) couplings) is shared by two chains
+            from mc.lib import four
+
+            cfg = four.card4("vector", ("cascBC", "cascBD", "pair"), data=variant["data"])
+        else:
+            cfg = zoo.card3(fin=variant["fin"], res=res, data=variant["data"])
         self.variant = variant
         self.c, self.amp = zoo.load(cfg, point=1)
         # the event data (angles, masses) do not depend on the model state: computed once per worker and
         # variant; every world gets its own shallow copies (the id-keyed cache of the model needs fresh objects)
         if variant["name"] not in _DATA:
-            ms = [zoo.M_FIN[n] for n in "BCD"]
-            ev = kin.lattice3(zoo.M_TOP, ms, 7, seed=0, orientations=1)
+            if variant.get("four"):
+                from mc.lib import four
+
+                names = "BCDE"
+                ev = four.lattice4(2, seed=0, orientations=2)
+            else:
+                names = "BCD"
+                ms = [zoo.M_FIN[n] for n in "BCD"]
+                ev = kin.lattice3(zoo.M_TOP, ms, 7, seed=0, orientations=1)
             assert len(ev[0]) >= 12, len(ev[0])
             probe = [a[:5] for a in ev]
             mc = [a[5:12] for a in ev]
-            d_mc = self.c.data.cal_angle(zoo.p4_dict("BCD", mc))
+            d_mc = self.c.data.cal_angle(zoo.p4_dict(names, mc))
             d_mc["weight"] = np.array([1.0, 0.5, 2.0, 1.0, 0.25, 1.5, 1.0])
-            _DATA[variant["name"]] = (self.c.data.cal_angle(zoo.p4_dict("BCD", probe)), d_mc)
+            _DATA[variant["name"]] = (self.c.data.cal_angle(zoo.p4_dict(names, probe)), d_mc)
         import copy
 
         tpl_probe, tpl_mc = _DATA[variant["name"]]
@@ -165,7 +179,7 @@ def blocks(tier):
 
 
 def block_pairs(tier):
-    """every ordered pair of block kinds nested with an empty body (offered from the initial state, thorough: depth <= 1)"""
+    """every ordered pair of block kinds nested with an empty / evaluating body (offered from the initial state)"""
     have = set(blocks(tier))
     out = []
     for k1 in BLOCK_KINDS + ["mask_params2"]:
@@ -383,7 +397,7 @@ def expand(payload):
     res = Res()
     succ = []
     ops = PERSISTENT + comps(tier) + blocks(tier)
-    if len(hist) <= (0 if tier == "quick" else 1):
+    if len(hist) == 0:
         ops = ops + block_pairs(tier)
     i0, n0 = payload.get("slice", (0, 1))
     for op in ops[i0::n0]:
@@ -439,12 +453,15 @@ def run(tier, seed, only=None):
              "inside the operation (distinct by (variant, history, injection point)).",
         assumptions=[
             "faults are Python exceptions raised at amplitude-evaluation seams and block bodies; failures of the restoring assignment itself are not injected",
-            "decay groups: three-body, 3 chains (thorough: +second resonance in one slot, spin-1 final particle)",
+            "decay groups: three-body, 3 chains; four-body, 3 chains of which two share the decay A -> R_BCD E (explored one level less deep); thorough: +second resonance in one slot, spin-1 final particle",
             "observation = get_params, raw variables, chains_idx, masks, mask_factor flags, registry, density of 5 probe events through first-call, cached-call and new-object paths",
         ],
     )
     variants = VARIANTS_QUICK if tier == "quick" else VARIANTS_THOROUGH
-    depth = int(os.environ.get("C17_DEPTH", 2 if tier == "quick" else 3))
+    # both tiers explore histories of length 2; the thorough tier has the larger alphabet (bodies, nested blocks, block
+    # pairs at both levels), more model variants, and injects faults also from the states reached by one persistent
+    # operation (depth 3 is ~3e5 executions: available through C17_DEPTH, not registered)
+    depth = int(os.environ.get("C17_DEPTH", 2))
     fault_depth = int(os.environ.get("C17_FAULT_DEPTH", 1 if tier == "quick" else 2))
     seen = {}
     frontier = [{"variant": v, "hist": [], "tier": tier} for v in variants]
@@ -469,7 +486,7 @@ def run(tier, seed, only=None):
                     if key not in seen:
                         seen[key] = it["hist"] + [op]
                         rep.nt.add(short_hash(key))
-                        if not bad:
+                        if not bad and len(it["hist"]) + 1 < it["variant"].get("max_depth", 99) + (1 if tier == "thorough" else 0):
                             nxt.append({"variant": it["variant"], "hist": it["hist"] + [op], "tier": tier})
                             if len(rep.samples) < 3 and d >= 1:
                                 rep.samples.append({"variant": it["variant"]["name"], "history": it["hist"] + [op]})
@@ -487,9 +504,16 @@ def run(tier, seed, only=None):
         ro = [o for o in comps(tier) + blocks(tier)]
         for d in range(fault_depth):
             for st in by_depth.get(d, []):
+                if d >= 1 and not (len(st["hist"]) == 1 and is_persistent(st["hist"][0])):
+                    continue  # non-initial fault states: those reached by one persistent operation
+                small = tier == "quick" and st["variant"].get("four")
                 for op in ro:
+                    if small and not (op in (("pw",), ("ff_new", 3), ("fi", 2, 0)) or (op[0] == "block" and op[1] in ("gls_one", "temp_used_res", "temp_params") and op[2] in (("eval_same",), ("pw",)))):
+                        continue  # quick tier: a subset of the fault sites on the (slower) four-body group
                     items.append({"variant": st["variant"], "hist": st["hist"], "op": op, "tier": tier})
                 for k in BLOCK_KINDS:
+                    if small and k not in ("gls_one", "temp_used_res"):
+                        continue
                     for b in fault_bodies(tier):
                         items.append({"variant": st["variant"], "hist": st["hist"], "op": ("block", k, b), "tier": tier, "body_fault": True})
         if seed:
